@@ -104,9 +104,24 @@ Definition dump_sup (s : supcfg) : list atom :=
     AS (s_pidfile s); AS (s_identifier s); AB (s_nodaemon s); AB (s_silent s); AS (s_childlogdir s);
     AB (s_nocleanup s); AB (s_strip_ansi s)] ++ adict (s_environment s))%list.
 
+(* the attributes of the ServerOptions object itself after process_config:
+   the configured [supervisord] value wins over the add(...) default whenever
+   the section has a value (the section never leaves these None except user,
+   directory, profile_options).  One entry per generated effective_options row
+   (dump_effective_cover in Proofs.v). *)
+Definition dump_effective (s : supcfg) : list (string * atom) :=
+  [ ("nodaemon", AB (s_nodaemon s)); ("user", aopt AS (s_user s)); ("umask", AZ (s_umask s));
+    ("directory", aopt AS (s_directory s)); ("logfile", AS (s_logfile s));
+    ("logfile_maxbytes", AZ (s_logfile_maxbytes s)); ("logfile_backups", AZ (s_logfile_backups s));
+    ("loglevel", AZ (s_loglevel s)); ("pidfile", AS (s_pidfile s)); ("identifier", AS (s_identifier s));
+    ("childlogdir", AS (s_childlogdir s)); ("minfds", AZ (s_minfds s)); ("minprocs", AZ (s_minprocs s));
+    ("nocleanup", AB (s_nocleanup s)); ("strip_ansi", AB (s_strip_ansi s)); ("profile_options", AN);
+    ("silent", AB (s_silent s)) ].
+
 Definition dump (r : result config) : list atom :=
   match r with
-  | Ok cf => (AT "ok" :: dump_sup (cf_sup cf) ++ flat_map dump_group (cf_groups cf))%list
+  | Ok cf => (AT "ok" :: dump_sup (cf_sup cf) ++ AT "effective" :: map snd (dump_effective (cf_sup cf))
+              ++ flat_map dump_group (cf_groups cf))%list
   | Err e => [AT "err"; AT (err_name e)]
   end.
 
